@@ -324,6 +324,7 @@ const (
 	gVia                        // every path from the success edge of sub[0] to the emission crosses an assignment to <…>.name
 	gLastUse                    // nothing reachable after the emission reads <…>.name (the emission is the last access)
 	gParamSame                  // `name` is a parameter of the function that is never re-assigned
+	gInRangeFrom                // inside a loop over <…>.name[rhs:] (a range over the slice expression, or a counting loop starting at rhs)
 )
 
 type guard struct {
@@ -357,6 +358,7 @@ func gdomcallArg(name, arg string) guard { return guard{kind: gDomCall, name: na
 func gdomcall(name string) guard         { return guard{kind: gDomCall, name: name} }
 func glastuse(name string) guard         { return guard{kind: gLastUse, name: name} }
 func gparam(name string) guard           { return guard{kind: gParamSame, name: name} }
+func grangeFrom(name, lo string) guard   { return guard{kind: gInRangeFrom, name: name, rhs: lo} }
 
 func (g guard) String() string {
 	switch g.kind {
@@ -364,6 +366,8 @@ func (g guard) String() string {
 		return "last access of ." + g.name
 	case gParamSame:
 		return "parameter " + g.name + " unchanged"
+	case gInRangeFrom:
+		return "range ." + g.name + "[" + g.rhs + ":]"
 	}
 	p := ""
 	if !g.pol {
@@ -768,7 +772,7 @@ func guardHolds(p5c *p5, fn *Func, at ast.Node, g guard) bool {
 		}
 		anySub := func(a *Atom) bool {
 			for _, s := range g.sub {
-				if s.kind != gAny && s.kind != gInRange && s.kind != gDomAssign && s.kind != gNonNilVar && atomMatches(fn, a, s) {
+				if s.kind != gAny && s.kind != gInRange && s.kind != gInRangeFrom && s.kind != gDomAssign && s.kind != gNonNilVar && atomMatches(fn, a, s) {
 					return true
 				}
 			}
@@ -951,6 +955,43 @@ func guardHolds(p5c *p5, fn *Func, at ast.Node, g guard) bool {
 			return true
 		})
 		return !later
+	case gInRangeFrom:
+		info := fn.Info()
+		isSliceFrom := func(e ast.Expr) bool {
+			e = ast.Unparen(e)
+			if id, ok := e.(*ast.Ident); ok {
+				if def := fn.SingleDef(info.ObjectOf(id)); def != nil {
+					e = ast.Unparen(def)
+				}
+			}
+			sl, ok := e.(*ast.SliceExpr)
+			if !ok || sl.High != nil || sl.Low == nil || lastSel(sl.X) != g.name {
+				return false
+			}
+			return exprStr(constFold(fn, sl.Low)) == g.rhs
+		}
+		for _, f := range fn.FactsAt(at) {
+			if f.Kind == FactRange && isSliceFrom(f.Range.X) {
+				return true
+			}
+		}
+		// for i := lo; i < len(xs); i++
+		for c := ast.Node(at); c != nil; c = fn.Prog.parents[c] {
+			fs, ok := fn.Prog.parents[c].(*ast.ForStmt)
+			if !ok || fs.Body != c || fs.Cond == nil || fs.Init == nil {
+				continue
+			}
+			as, ok := fs.Init.(*ast.AssignStmt)
+			if !ok || len(as.Rhs) != 1 || exprStr(constFold(fn, as.Rhs[0])) != g.rhs {
+				continue
+			}
+			if b, ok := ast.Unparen(fs.Cond).(*ast.BinaryExpr); ok && b.Op == token.LSS {
+				if call, ok := ast.Unparen(b.Y).(*ast.CallExpr); ok && isBuiltinCall(info, call, "len") && len(call.Args) == 1 && lastSel(call.Args[0]) == g.name {
+					return true
+				}
+			}
+		}
+		return false
 	case gParamSame:
 		root := rootOf(fn)
 		if root.Obj == nil {
